@@ -753,6 +753,16 @@ func (x *g) vcase(c config, force string) string {
 				}
 			}
 		}
+		if s.scheme == "pss" && s.salt > 0 && r.Intn(24) == 0 {
+			// the same for PSS (randomized: search over fresh signatures of the same message)
+			std := rk.std(65537)
+			for t := 0; t < 1500; t++ {
+				sg, err := rsa.SignPSS(rand.Reader, std, cryptoHash(s.hash), digestOf(s.hash, m), &rsa.PSSOptions{SaltLength: s.salt})
+				if err == nil && sg[0] == 0 {
+					return withBody(sg[1:], "bad:lead-zero-stripped")
+				}
+			}
+		}
 		switch k := r.Intn(12); {
 		case k == 0:
 			body[r.Intn(len(body))] ^= 1 << r.Intn(8)
